@@ -1,2 +1,119 @@
-/- C18 driver (stub until the model exists) -/
-def main : IO Unit := pure ()
+/- C18 driver: op lines in, observable lines out (same format as props/C18/harness.cpp).
+   `c18 orig` runs the model of the code as found (before patches/C18-*). -/
+import TboxModel.Util
+import TboxModel.C18.Model
+open Tbox.Util Tbox.C18
+
+def nPrims : Nat := 4
+
+/-- canonical decimal, at most 6 digits, below `lim` -/
+def num? (w : String) (lim : Nat) : Option Nat :=
+  let cs := w.toList
+  if cs.isEmpty ∨ cs.length > 6 then none
+  else if !cs.all (fun c => '0' ≤ c ∧ c ≤ '9') then none
+  else
+    let v := cs.foldl (fun a c => a * 10 + (c.toNat - 48)) 0
+    if v < lim then some v else none
+
+def two? (w : String) : Option (Nat × Nat) :=
+  match w.splitOn ":" with
+  | [a, b] => do pure ((← num? a nPrims), (← num? b 1000))
+  | _ => none
+
+def parseSOp (w : String) (ndefs : Nat) : Option Op :=
+  match w.toList with
+  | ['y'] => some .yield
+  | ['w'] => some .wait
+  | ['e'] => some .exit
+  | 's' :: r => (two? (String.ofList r)).map fun p => .send p.1 p.2
+  | 'r' :: r => (num? (String.ofList r) nPrims).map .recv
+  | 'l' :: r => (num? (String.ofList r) nPrims).map .lock
+  | 'u' :: r => (num? (String.ofList r) nPrims).map .unlock
+  | 'a' :: r => (num? (String.ofList r) nPrims).map .acquire
+  | 'v' :: r => (num? (String.ofList r) nPrims).map .release
+  | 'p' :: r => (num? (String.ofList r) nPrims).map .post
+  | 'b' :: r => (num? (String.ofList r) nPrims).map .bwait
+  | 'c' :: 'w' :: r => (num? (String.ofList r) nPrims).map .cwait
+  | 'c' :: 'a' :: r => (two? (String.ofList r)).map fun p => .cadd p.1 p.2
+  | 'c' :: 'p' :: r => (two? (String.ofList r)).map fun p => .cpost p.1 p.2
+  | 'j' :: r => (num? (String.ofList r) 64).map .join
+  | 'x' :: r => (num? (String.ofList r) 64).map .cancel
+  | 'n' :: r => (num? (String.ofList r) ndefs).map fun d => .create d true
+  | 'N' :: r => (num? (String.ofList r) ndefs).map fun d => .create d false
+  | _ => none
+
+def parseScript (w : String) (ndefs : Nat) : Option (List Op) :=
+  if w == "-" then some []
+  else if w.endsWith "," then none
+  else (w.splitOn ",").mapM fun item => parseSOp item ndefs
+
+def showOp : Op → String
+  | .yield => "y" | .wait => "w" | .exit => "e"
+  | .send c v => s!"s{c}:{v}" | .recv c => s!"r{c}"
+  | .lock m => s!"l{m}" | .unlock m => s!"u{m}"
+  | .acquire k => s!"a{k}" | .release k => s!"v{k}"
+  | .post b => s!"p{b}" | .bwait b => s!"b{b}"
+  | .cadd k v => s!"ca{k}:{v}" | .cwait k => s!"cw{k}" | .cpost k v => s!"cp{k}:{v}"
+  | .join t => s!"j{t}" | .cancel t => s!"x{t}"
+  | .create d true => s!"n{d}" | .create d false => s!"N{d}"
+
+def showRes : Res → String
+  | .ok => "ok" | .fail => "fail" | .val v => s!"v{v}"
+
+def showEv (e : Ev) : String :=
+  s!"P e r={e.r} {showOp e.op} {showRes e.res} c={if e.canc then 1 else 0}"
+
+def summary (s : State) : String :=
+  let st := if s.n = 0 then "-" else
+    ",".intercalate ((List.range s.n).map fun r =>
+      let x := s.R r
+      if !x.started then "u" else if x.state = .dead then "d" else toString x.done)
+  let ch := String.join ((List.range nPrims).map fun c => if (s.ch c).queue.isEmpty then "1" else "0")
+  let sm := String.join ((List.range nPrims).map fun k => if (s.sm k).count = 0 then "0" else "1")
+  s!"P st={st} ch={ch} sm={sm}"
+
+def parseMain (s : State) (ws : List String) : Option MainOp :=
+  match ws with
+  | ["def", xf, sc] => do
+      let xf ← num? xf 2
+      if s.defs.length ≥ 32 then none
+      let ops ← parseScript sc s.defs.length
+      pure (.define (xf == 1) ops)
+  | ["new", d, now] => do pure (.new (← num? d s.defs.length) ((← num? now 2) == 1))
+  | ["resume", r] => do pure (.resume (← num? r s.n))
+  | ["cancel", r] => do pure (.cancel (← num? r s.n))
+  | ["cleanup"] => some .cleanup
+  | ["pass"] => some .pass
+  | _ => none
+
+/-- coarse state tags for the distribution statistics -/
+def stateTags (s : State) (op : MainOp) : List String :=
+  let live := (List.range s.n).filter fun r => !(s.R r).freed
+  let susp := live.filter fun r => (s.R r).state = .suspend ∧ (s.R r).inOp
+  (if susp.length ≥ 2 then ["susp>=2"] else []) ++
+  (if s.readyq.isEmpty then ["idle"] else ["busy"]) ++
+  (match op with
+   | .cleanup => if live.any (fun r => (s.R r).started) then ["cleanup-started"] else ["cleanup"]
+   | .cancel r => if (s.R r).state = .suspend ∧ (s.R r).inOp then ["cancel-blocked-main"] else ["cancel"]
+   | .resume r => if (s.R r).state = .suspend ∧ (s.R r).inOp then ["spurious-resume"] else ["resume"]
+   | _ => []) ++
+  (if s.stuck then ["STUCK"] else [])
+
+def stepLine (orig : Bool) (s : State) (line : String) : State × List String :=
+  let ws := words line
+  match ws with
+  | [] => (s, [])
+  | "case" :: _ => ((if orig then initOrig else init), [line.trimAscii.toString])
+  | _ =>
+    match parseMain s ws with
+    | none => (s, ["bad-op"])
+    | some op =>
+      let s0 := { s with tags := [] }
+      let pre := stateTags s0 op
+      let s' := step s0 op
+      let evs := (s'.log.drop s.log.length).map showEv
+      (s', ["B " ++ " ".intercalate (pre ++ s'.tags ++ ["n" ++ toString (min s'.n 7)])] ++ evs ++ [summary s'])
+
+def main (args : List String) : IO Unit :=
+  let orig := args.contains "orig"
+  runDriver (if orig then initOrig else init) (stepLine orig)
